@@ -107,9 +107,12 @@ def run_implicit(inst, p, mode):
     bits, tol = 40, 1e-9
     if mode["solver"] == "kpm":
         kw = dict(direct_solver=False, solver_options=dict(atol=mode["atol"], max_moments=50000))
-        # true values are dyadic with denominators up to about 2^18 at these orders; the grid 2^-20
-        # (spacing 9.5e-7) is still two orders of magnitude coarser than the accepted error
-        bits, tol = 20, 40 * mode["atol"]
+        # orders <= 2: the true values are dyadic with denominators up to about 2^12 (gaps 1..8, entries
+        # in halves, the dyadic unitary).  Observed KPM errors reach ~10 * atol * |value| at second order
+        # (5e-7 on a value of 5 with atol = 1e-8); the grid 2^-16 has half-spacing 7.6e-6, so the snap
+        # still lands on the true value with a margin of more than an order of magnitude, and anything
+        # further away than 400 * atol * max(1, |value|) is rejected before snapping.
+        bits, tol = 16, 400 * mode["atol"]
     elif mode["solver"] == "direct_opts":
         kw = dict(solver_options=dict(eigenvalue_atol=1e-10))
     fd = hermitian.fd_argument(inst)
@@ -166,7 +169,7 @@ def _job(args):
     rng = common.rng_for(seed, "C06", idx)
     for _ in range(30):
         try:
-            # KPM outputs are snapped to a 2^-20 grid: keep the true denominators well below it
+            # KPM outputs are snapped to a 2^-16 grid: keep the true denominators well below it
             inst = make_instance(rng, max_order=2 if mode["solver"] == "kpm" else 3)
             twin_sess = hermitian.make_session(inst, idx + 1, p, spectrum=spectrum)
             A = dict(d=inst["d"], ords=twin_sess["ords"], out=twin_sess["out"])
@@ -255,7 +258,7 @@ def run(pid, tier, seed, replay=None):
              "LeastAction, implicit run validated against the embedding of the twin",
         pairs_per_mode=per_mode, crashes=len(crashes), negative_control=control, exhaustive=False)
     common.write_evidence(pid, tier, seed, coverage, time.time() - t0, len(violations),
-                          ["alpha_snap: direct-solver outputs within 1e-9 of a multiple of 2^-40, KPM outputs (atol=1e-8) within 40*atol of "
-                           "a multiple of 2^-20 (instances have power-of-two eliminated gaps, so the true values are dyadic)",
+                          ["alpha_snap: direct-solver outputs within 1e-9 of a multiple of 2^-40, KPM outputs (atol=1e-8) within 400*atol of "
+                           "a multiple of 2^-16 (instances have power-of-two eliminated gaps, so the true values are dyadic)",
                            "Hermitian problems only; non-Hermitian implicit mode is covered at solver level by C16"])
     return lines, len(violations)
